@@ -36,20 +36,22 @@ def prepare(plan, name):
     return db
 
 
+class Curve(dict):
+    """The master curve as the VIEW average_rising_depth / average_recession_time shows it (what the user, the
+    plots and the PEST files see): level number -> value.  .table = the same from the tables rise / recession
+    wrote (level means of offset + crossing over the aligned intervals); .complaints = where view and tables
+    disagree (curves_common.view_table_complaints)."""
+    table = None
+    complaints = ()
+
+
 def curve_levels(db, kind):
-    """zeta_number -> master value, and the step."""
-    con = sqlite3.connect(db)
-    try:
-        (step,) = con.execute('SELECT grid_interval_mm FROM zeta_grid').fetchone()
-        if kind == 'rise':
-            q = ('SELECT zeta_number, AVG(rain_depth_offset_mm + mean_crossing_depth_mm) FROM rising_interval '
-                 'JOIN rising_interval_zeta USING (start_epoch) GROUP BY zeta_number')
-        else:
-            q = ('SELECT zeta_number, AVG(time_offset_s + mean_crossing_time) FROM recession_interval '
-                 'JOIN recession_interval_zeta USING (start_epoch) GROUP BY zeta_number')
-        return dict(con.execute(q)), step
-    finally:
-        con.close()
+    r = CC.read_curves(db)
+    got, bad = CC.view_master(r, kind)
+    c = Curve(got)
+    c.table, _ = CC.table_master(r, kind)
+    c.complaints = CC.view_table_complaints(r, kinds=(kind,))
+    return c, r['grid'][0][0]
 
 
 def run_ref(db, kind, ref, tag):
@@ -77,6 +79,10 @@ def refs_for(rng, levels, step):
     out.append(('off-3e-7', k, k * step + 3e-7, False))
     out.append(('within-3e-9', k, k * step + 3e-9, True))
     out.append(('outside-curve', max(ks) + 50, (max(ks) + 50) * step, True))
+    if getattr(levels, 'table', None):
+        # the highest level at which the command stored crossings of aligned intervals: it is on the assembled curve
+        kt = max(levels.table)
+        out.append(('top-of-curve', kt, kt * step, True))
     return out
 
 
@@ -95,10 +101,21 @@ def check(plans, out, label):
             if st != 'ok':
                 out.count('no-curve(' + kind + ')')
                 continue
+            if plan.get('top_cell'):
+                out.count('%s: highest level positive and off the grid lines, top grid level %s crossed by >= 2 intervals'
+                          % (kind, 'IS' if plan.get('top_level') in base.table else 'is not'))
+            for msg in base.complaints:
+                out.violation('oracle', '%s without reference: master-curve view <> tables: %s' % (kind, msg), case=case0)
+            if not base:
+                out.violation('oracle', '%s succeeded but the master-curve view is empty' % kind, case=case0)
+                continue
             top = max(base)
             scale = 1 + max(abs(v) for v in base.values())
             if abs(base[top]) > 1e-9 * scale:
-                out.violation('oracle', '%s curve without reference is %.3g at its highest level (not 0)' % (kind, base[top]), case=case0)
+                out.violation('oracle', '%s curve without reference is %.3g at its highest level (%s mm), not 0%s'
+                              % (kind, base[top], top * plan['grid_step'],
+                                 '' if top == max(base.table) else '; the tables hold crossings up to level %d (%s mm), which '
+                                 'the view does not show' % (max(base.table), max(base.table) * plan['grid_step'])), case=case0)
             step = plan['grid_step']
             for form, k, ref, on_grid in refs_for(rng, base, step):
                 out.evaluations += 1
@@ -115,7 +132,7 @@ def check(plans, out, label):
                         out.violation('oracle', '%s refuses reference %r = %d x step %s (%s): a multiple of the grid step '
                                       'must be accepted' % (kind, ref, k, step, form), case=case)
                 elif st == 'not-on-curve':
-                    if k in base:
+                    if k in base or k in base.table:
                         out.violation('oracle', '%s -r %r: level %d is on the curve but the command reports it missing (%r)'
                                       % (kind, ref, k, exc), case=case)
                     impl = None   # index not observable
@@ -124,6 +141,8 @@ def check(plans, out, label):
                     if not on_grid:
                         out.violation('oracle', '%s accepts reference %r which is not a multiple of step %s (%s)'
                                       % (kind, ref, step, form), case=case)
+                    for msg in lev.complaints[:1]:
+                        out.violation('oracle', '%s -r %r: master-curve view <> tables: %s' % (kind, ref, msg), case=case)
                     zero = [z for z, v in lev.items() if abs(v) <= 1e-9 * scale]
                     if k not in lev or abs(lev[k]) > 1e-9 * scale:
                         out.violation('oracle', '%s -r %r (%d x %s): master curve at that level is %r, not 0; zero at levels %s'
@@ -154,10 +173,18 @@ def run(ctx, out):
         rng = C.rng_for(seed, PROP, k)
         g = GRID_STEPS[k % len(GRID_STEPS)]
         plans.append(CC.make_plan(rng, n_events=rng.randrange(3, 5), grid_step=g, noise=(k % 2 == 0)))
+    # records reaching above the surface: highest level positive and off the grid lines, the top level of the grid
+    # crossed by >= 2 rises and >= 2 recessions, so that it is the origin when no reference is given (own streams)
+    for k in range(max(3, n // 4)):
+        rng = C.rng_for(seed, PROP, 'top', k)
+        g = GRID_STEPS[(3 * k + seed) % len(GRID_STEPS)]
+        plans.append(CC.make_plan(rng, n_events=rng.randrange(3, 5), grid_step=g, noise=(k % 2 == 0), top_cell=True))
     check(plans, out, 'cl')
     out.rule = ('Planted datasets x grid steps {1, .5, .1, .2, .3, 2.5, 5} x references (k*step as float product, as decimal '
-                'text, half a step off, 3e-7 off, 3e-9 off, a multiple outside the curve, none) through `rise -r` and '
-                '`recession -r`. Non-trivial: accepted on-grid reference on a curve with >= 3 levels; distinct by (command, '
+                'text, half a step off, 3e-7 off, 3e-9 off, a multiple outside the curve, the highest level of the '
+                'assembled curve, none) through `rise -r` and `recession -r`; 1/5 of the records have a positive highest '
+                'level off the grid lines with the top grid level crossed by >= 2 rises and >= 2 recessions. The curve is '
+                'read from the views average_rising_depth / average_recession_time and compared with the tables. Non-trivial: accepted on-grid reference on a curve with >= 3 levels; distinct by (command, '
                 'form, step, k).')
     out.samples = [dict(step=plans[0]['grid_step'], refs='k*step for k in curve levels, decimal text, off-grid variants')]
     out.assumptions += ['a multiple of the step that lies outside the assembled curve raises KeyError (cannot be the origin): '
